@@ -1,0 +1,6 @@
+//go:build verif
+
+// Package verifapi re-exports internal entry points for the external
+// verification harness. It is compiled only with the build tag "verif"
+// and adds no behaviour of its own.
+package verifapi
